@@ -216,8 +216,8 @@ Definition rb_new_value (b : builder) : res value :=
               end
             else match t with
                  | TList e =>
-                     (* ListVal of lo unknown elements (lo is a Go int; allocation of huge sizes is not modelled) *)
-                     Ok (fin (V (TList e) (PSeq (repeat (PUnk RNone) (Z.to_nat lo)))))
+                     (* ListVal of lo unknown elements, up to maxKnownLengthPlaceholders (fix: commit 82551d2) *)
+                     if lo <=? 1024 then Ok (fin (V (TList e) (PSeq (repeat (PUnk RNone) (Z.to_nat lo))))) else plain
                  | TSet e =>
                      if lo =? 1 then do s <- set_val [v_unknown e]; Ok (fin s) else plain
                  | _ => plain
